@@ -1109,7 +1109,7 @@ pub fn bnd_doc() {
             let h = d.to_string();
             let base = { let h = d.to_string(); panic::catch_unwind(move || { let c = config::plain(); let c = if ovf { c.allow_width_overflow() } else { c }; c.string_from_read(h.as_bytes(), w) }) };
             match panic::catch_unwind(move || { let c = config::plain(); let c = if let Some(m) = mww { c.max_wrap_width(m) } else { c }; let c = if ovf { c.allow_width_overflow() } else { c }; c.string_from_read(h.as_bytes(), w) }) {
-                Err(_) => rep.found(&input, "panic"),
+                Err(_) => rep.found(&input, if ovf { "panic (allow_width_overflow with max_wrap_width)" } else { "panic" }),
                 Ok(Err(e)) => if ovf { rep.found(&input, &format!("error {:?} although width overflow is allowed", e)); },
                 Ok(Ok(o)) => if let Ok(Ok(b)) = base { if mww.map(|m| m >= w).unwrap_or(true) && b != o { rep.found(&input, &format!("max_wrap_width >= width changed the rendering: {:?} vs {:?}", o, b)); } },
             }
@@ -1209,7 +1209,12 @@ pub fn c14_elements() {
               "<p>ta</p><details><summary id=\"x\">tb</summary>tc</details>", "<p>ta</p><figure><figcaption id=\"x\">tb</figcaption></figure>", "<p>ta</p><fieldset><legend id=\"x\">tb</legend></fieldset>",
               "<p>ta <img id=\"x\" src=\"s\" alt=\"tb\"> tc</p>", "<p>ta</p><select id=\"x\"><option>tb</option></select>", "<p>ta</p><select><option id=\"x\">tb</option></select>",
               "<p>ta</p><div id=\"x\"><div><div>tb</div></div></div>", "<p>ta</p><span id=\"x\"><p>tb</p></span>", "<p>ta</p><em id=\"x\"><ul><li>tb</li></ul></em>",
-              "<p>ta</p><div id=\"x\"><table><tr><td>tb</td></tr></table></div>", "<p>ta</p><blockquote id=\"x\"><blockquote>tb</blockquote></blockquote>"] { docs.push(d.to_string()); }
+              "<p>ta</p><div id=\"x\"><table><tr><td>tb</td></tr></table></div>", "<p>ta</p><blockquote id=\"x\"><blockquote>tb</blockquote></blockquote>",
+              // table parts whose first row or first cell shows nothing (the marker must not go into a cell that is dropped)
+              "<p>ta</p><table id=\"x\"><tr></tr><tr><td>tb</td></tr></table>", "<p>ta</p><table><tbody id=\"x\"><tr></tr><tr><td>tb</td></tr></tbody></table>",
+              "<p>ta</p><table><tr id=\"x\"><td></td><td>tb</td></tr></table>", "<p>ta</p><table><tr id=\"x\"><td> </td><td>tb</td></tr></table>",
+              "<p>ta</p><table id=\"x\"><tr><td><br></td></tr><tr><td>tb</td></tr></table>", "<p>ta</p><table><thead id=\"x\"><tr><th></th><th>tb</th></tr></thead></table>",
+              "<p>ta</p><table><tr id=\"x\"><td><span> </span></td><td>tb</td></tr></table>", "<p>ta</p><table id=\"x\"><tr><td><em></em></td></tr><tr><td>tb</td></tr></table>"] { docs.push(d.to_string()); }
     let mut rep = Report::new("c14_elements", &format!("{} documents, each with one element carrying id (or name) \"x\" whose first text is tb, over {} inline and {} block element kinds, list, definition-list and table parts,         form and interactive elements, nested blocks; widths 4, 12, 40; rich lines: exactly one FragmentStart \"x\", and the first text after it starts with tb", docs.len(), inline.len(), block.len()));
     for html in &docs { for w in [4usize, 12, 40] {
         let input = format!("width={} html={}", w, html);
@@ -1259,12 +1264,12 @@ pub fn bnd_mut() {
             rep.case(&input);
             let mk = move |ovf: bool| { let c = config::plain(); let c = match opt { 1 => c.use_doc_css(), 2 => c.raw_mode(true), 3 => c.no_table_borders(), _ => c }; if ovf { c.allow_width_overflow() } else { c } };
             let (h1, h2) = (html.clone(), html.clone());
-            let strict = match panic::catch_unwind(move || mk(false).string_from_read(h1.as_bytes(), w)) { Ok(x) => x, Err(_) => { rep.found(&input, "panic"); continue; } };
+            let strict = match panic::catch_unwind(move || mk(false).string_from_read(h1.as_bytes(), w)) { Ok(x) => Some(x), Err(_) => { rep.found(&input, "panic"); None } };   // the overflow rendering is still tried
             let loose = match panic::catch_unwind(move || mk(true).string_from_read(h2.as_bytes(), w)) { Ok(x) => x, Err(_) => { rep.found(&input, "panic (allow_width_overflow)"); continue; } };
-            if w == 0 { if strict.is_ok() || loose.is_ok() { rep.found(&input, "width 0 did not give an error"); } continue; }
+            if w == 0 { if strict.as_ref().map_or(false, |x| x.is_ok()) || loose.is_ok() { rep.found(&input, "width 0 did not give an error"); } continue; }
             match (&strict, &loose) {
                 (_, Err(e)) => rep.found(&input, &format!("error {:?} although width overflow is allowed", e)),
-                (Ok(a), Ok(b)) => if a != b { rep.found(&input, &format!("allow_width_overflow changed a rendering that succeeds: {:?} vs {:?}", a, b)); },
+                (Some(Ok(a)), Ok(b)) => if a != b { rep.found(&input, &format!("allow_width_overflow changed a rendering that succeeds: {:?} vs {:?}", a, b)); },
                 _ => {}
             }
         }}
@@ -1332,7 +1337,7 @@ pub fn c02_elements() {
         let input = format!("width={} html={}", w, d.replace('\n', "\\n"));
         rep.case(&input);
         let (h1, h2) = (d.to_string(), d.to_string());
-        let strict = match panic::catch_unwind(move || config::plain().string_from_read(h1.as_bytes(), w)) { Ok(x) => x.ok(), Err(_) => { rep.found(&input, "panic"); continue; } };
+        let strict = match panic::catch_unwind(move || config::plain().string_from_read(h1.as_bytes(), w)) { Ok(x) => x.ok(), Err(_) => { rep.found(&input, "panic"); None } };
         if let Some(s) = &strict { if let Some(l) = s.lines().find(|l| UnicodeWidthStr::width(*l) > w) { rep.found(&input, &format!("line {:?} is {} columns wide", l, UnicodeWidthStr::width(l))); continue; } }
         match panic::catch_unwind(move || config::plain().allow_width_overflow().string_from_read(h2.as_bytes(), w)) {
             Err(_) => rep.found(&input, "panic (allow_width_overflow)"),
